@@ -29,6 +29,13 @@ RUNNER = os.path.join(HERE, "c14_runner.py")
 
 KEY_IF = "C14:hashseed:converter:If-output-order"
 KEY_LOOP = "C14:hashseed:converter:Loop-state-order"
+KEY_COUNTER = "C14:history:ruleset:value-name-counter-not-reset"
+KEY_EAGER = "C14:globals:eager-call-rereads-mutated-global:"      # + kind
+KEY_ALIAS = "C14:globals:proto-aliases-mutated-global:"           # + kind
+
+# later-call measurements (harness/c14_ops.py op_s_later_<kind>): kind -> the mutation is a rebinding of the name
+LATER_KINDS = {"float": True, "list_rebound": True, "list_inplace": False, "int_attr": True, "callee": True, "if_cond": True,
+               "loop": True, "nonlocal": True, "array_inplace": False, "array_expr": False}
 
 _GEN = {}
 
@@ -49,10 +56,15 @@ def regenerate(ctx):
     _GEN["rules"] = rules
     _GEN["rule_problems"] = probs
     _GEN["abstract"] = getattr(tr.rule_cfgs, "abstract", [])
+    _GEN["set_rule"] = getattr(tr.rule_cfgs, "set_rule", None)
     text, memos, probs = tr.evaluator_memos(common.REPO)
     ctx.gen("EvaluatorCache", text)
     _GEN["memos"] = memos
     _GEN["memo_problems"] = probs
+    text, ssites, probs = tr.process_state(common.REPO, [r for r in rules if ":" in r["name"] and "." not in r["name"].split(":")[1]], memos)
+    ctx.gen("ProcessStateSites", text)
+    _GEN["state_sites"] = ssites
+    _GEN["state_problems"] = probs
 
 
 # ----------------------------------------------------------------------------------------------- op catalogue
@@ -72,12 +84,15 @@ FAMILIES = {
     "rw-norm": ["m_rw_materialize", "m_rw_materialize_b", "m_rw_layernorm", "m_rw_layernorm_b", "m_rw_rmsnorm", "m_rw_rmsnorm_b"],
     "optimize": ["m_opt_fold", "m_opt_fold_b", "m_opt_if", "m_pass_fold", "m_pass_nofold", "m_pass_if", "x_opt_bad"],
     "convert-pattern": ["m_convert_up", "m_convert_up_b", "m_convert_up_c", "x_convert_bad", "x_bad_pattern", "m_rw_operator_pattern"],
+    "convert-functions-subgraphs": ["m_convert_fn_sub", "m_convert_fn_sub_b", "m_convert_fn_sub_ir", "m_convert_up", "x_convert_bad", "m_opt_func_a"],
+    "script-proto-options": ["s_proto_options", "s_repeat", "s_repeat_lib", "s_calls", "s_if1"],
     # the same foldable op types at different opset versions / the same function identifier with different bodies
     "optimize-versions": ["m_opt_axes_v11", "m_opt_axes_v12", "m_opt_axes_v13", "m_opt_axes_v18", "m_opt_misc_v9", "m_opt_misc_v13",
                           "m_opt_misc_v18", "m_opt_func_a", "m_opt_func_b", "m_opt_func_a_v13", "m_rw_default_v13"],
     "script-versions": ["s_opset15", "s_opset18", "s_domain_v1", "s_domain_v2"],
     # as_function extraction of a match spanning six operator domains (main graph / model-local function / If branch)
     "rw-as-function": ["m_rw_as_function_domains", "m_rw_as_function_domains_fn", "m_rw_as_function_domains_if"],
+    "script-later-calls": ["s_later_" + k for k in LATER_KINDS],
 }
 
 # hand-made histories aimed at the mechanisms named in the property's anchors (each op is a target for its prefix)
@@ -101,6 +116,10 @@ FIXED_SEQUENCES = [
     ["m_opt_func_a", "m_opt_func_b", "m_opt_func_a_v13", "m_opt_func_a", "m_rw_default_v13", "m_rw_default", "m_rw_default_v13", "m_opt_func_b"],
     ["s_opset15", "s_opset18", "s_domain_v1", "s_domain_v2", "s_opset15", "s_domain_v1", "m_convert_up_c", "m_convert_up"],
     ["s_domain_v2", "s_domain_v1", "s_opset18", "s_opset15", "m_convert_up", "m_convert_up_c", "m_opt_misc_v18", "m_opt_misc_v9"],
+    # version conversion of a model with a model-local function called from the main graph and from If branches, three targets, both APIs
+    ["m_convert_fn_sub_b", "m_convert_fn_sub", "x_convert_bad", "m_convert_fn_sub_ir", "m_convert_fn_sub", "m_opt_func_a", "m_convert_fn_sub_b", "m_convert_up"],
+    # to_model_proto with different options in sequence, around other decorations
+    ["s_proto_options", "s_repeat", "s_calls", "s_proto_options", "s_later_float", "s_later_callee", "s_proto_options", "s_if1"],
 ]
 
 # equalities between different operations required by the property text
@@ -126,6 +145,11 @@ def _sig(entry):
     if entry["ok"]:
         return ("ok",) + tuple(sorted(entry["sha"].items()))
     return ("err", entry["err"])
+
+
+def json_short(x):
+    import json
+    return json.dumps(x, default=str)[:300]
 
 
 def _workers():
@@ -170,6 +194,22 @@ def _classify_nodes(na, nb):
                 return "Loop-state-order"
         return "other"
     return None
+
+
+def only_fresh_value_names_differ(hex_a, hex_b):
+    """Two serialized models that become equal when the names the rewriter generates for new values (rewritten_val_<n>) are
+    renumbered in order of first appearance."""
+    import onnx
+    texts = []
+    for h in (hex_a, hex_b):
+        m = onnx.ModelProto()
+        m.ParseFromString(bytes.fromhex(h))
+        t = str(m)
+        order = {}
+        for x in re.findall(r"rewritten_val_\d+", t):
+            order.setdefault(x, len(order))
+        texts.append(re.sub(r"rewritten_val_\d+", lambda mo: f"rewritten_val_#{order[mo.group(0)]}", t))
+    return hex_a != hex_b and texts[0] == texts[1]
 
 
 def classify_function_diff(hex_a, hex_b):
@@ -221,6 +261,8 @@ def part_translators(ctx):
         ctx.tie_broken("translator", "rule_cfgs", f"anchored per-match state no longer visible: {missing}; rules={len(rules)} stateful={n_stateful}")
     ctx.cover(rule_classes_translated=len(rules), rule_classes_with_per_match_state=n_stateful,
               abstract_rule_classes_skipped=len(_GEN.get("abstract", [])),
+              abstract_rule_classes={a.replace("onnxscript/rewriter/", ""): "no pattern() of its own (cannot be instantiated); check/rewrite analysed in the "
+                                     "translated subclasses " + ", ".join(getattr(tr.rule_cfgs, "abstract_covered_by", {}).get(a, [])) for a in _GEN.get("abstract", [])},
               cfg_nodes=sum(tr.ir_size(r["check"]) + tr.ir_size(r["rewrite"]) for r in rules),
               per_graph_caches=[f"{r['name']}.{c}" for r in rules for c in r["caches"]],
               converter_set_sites=[f"{s['func']}:{s['line']}:{s['kind']}:{'sorted' if s['sorted'] else 'unsorted'}:{'emits' if s['emits'] else 'order-free'}" for s in sites])
@@ -235,7 +277,8 @@ def part_translators(ctx):
 def part_rule_proofs(ctx):
     """diagnostics first (which classes fail), then the theorems."""
     ok, log = ctx.build(["Gen/RuleCfgs.vo", "Gen/ConverterSites.vo", "Gen/EvaluatorCache.vo", "Determinism/MustDefProofs.vo",
-                         "Determinism/PermProofs.vo", "Determinism/KeyedCacheProofs.vo"])
+                         "Determinism/PermProofs.vo", "Determinism/KeyedCacheProofs.vo", "Determinism/ProcessStateProofs.vo",
+                         "Determinism/SnapshotProofs.vo", "Gen/ProcessStateSites.vo", "Determinism/RuleCfgsOk.vo"])
     if not ok:
         return []
     okm, valsm, rawm = ctx.coq_eval(["OV.Determinism.KeyedCache", "OV.Gen.EvaluatorCache"], "Eval vm_compute in (bad_memos EvaluatorCache.memos).")
@@ -262,7 +305,98 @@ def part_rule_proofs(ctx):
         for b in bad:
             ctx.tie_broken("proof", "rule_ok " + b, "a field is read by rewrite()/check() that is not set on every successful path of check() "
                                                     "(or a configuration field is written): result may depend on the object's earlier state")
+    # the rule-set object itself (module-level default rule set): variant decided here, explained by the oracle
+    oks, valss, raws = ctx.coq_eval(["OV.Determinism.MustDef", "OV.Gen.RuleCfgs"],
+                                    "Eval vm_compute in (bad_rules RuleCfgs.ruleset_passes).\nEval vm_compute in (List.length RuleCfgs.ruleset_passes).",
+                                    name="ruleset_pass")
+    if not oks:
+        ctx.tie_broken("proof", "bad_rules ruleset_passes evaluation", raws[-600:])
+        _GEN["ruleset_variant"] = None
+    else:
+        badset = re.findall(r'"([^"]+)"', valss[0])
+        nset = int(re.sub(r"%\w+", "", valss[1]))
+        if nset != 1:
+            ctx.tie_broken("translator", "rule_cfgs", "RewriteRuleSet.apply_to_model was not translated")
+        _GEN["ruleset_variant"] = "as-read" if badset else "reset"
+        ctx.cover(ruleset_naming_state=_GEN["ruleset_variant"])
+        if not badset and nset == 1:
+            okt, _v, rawt = ctx.coq_eval([], "Require Import OV.Determinism.MustDef OV.Determinism.MustDefProofs OV.Determinism.RuleCfgsOk OV.Gen.RuleCfgs.\n"
+                                             "From Coq Require Import List.\n"
+                                             "Theorem ruleset_passes_ok : forallb rule_ok RuleCfgs.ruleset_passes = true.\nProof. vm_compute. reflexivity. Qed.\n"
+                                             "Theorem ruleset_apply_history_independent : forall r, In r RuleCfgs.ruleset_passes ->\n"
+                                             "  forall (h : list (oracle * nat * trace)) (s0 : state) orc fuel tr,\n"
+                                             "    observable (run_match orc fuel (r_check r) (r_rewrite r) (run_history r h s0) tr) =\n"
+                                             "    observable (run_match orc fuel (r_check r) (r_rewrite r) s0 tr).\n"
+                                             "Proof. exact (ruleset_passes_history_independent_if_ok ruleset_passes_ok). Qed.\n"
+                                             "Print Assumptions ruleset_apply_history_independent.\n", name="ruleset_thm")
+            ctx.obligation("RewriteRuleSet.apply_to_model re-initialises every field of the rule-set object it reads (theorem "
+                           "ruleset_apply_history_independent over Gen/RuleCfgs.v)", okt and "Closed under the global context" in rawt, rawt[-300:])
+            if not (okt and "Closed under the global context" in rawt):
+                ctx.tie_broken("proof", "ruleset_apply_history_independent", rawt[-400:])
+        else:
+            ctx.obligation("RewriteRuleSet.apply_to_model re-initialises every field of the rule-set object it reads (must-definition check "
+                           "over Gen/RuleCfgs.v)", False, "rejected: " + ", ".join(badset) + " -- the direct oracle has to exhibit the history dependence")
     return bad
+
+
+# module-level state that is neither keyed completely, nor re-initialised per operation, nor written only at import: each one
+# is named with the reason why it cannot change a result (anything else the translator finds breaks the tie)
+NAMED_RESIDUAL = {
+    "rewriter/_pattern_ir:onnxop": "OpsetPatternBuilder('') is constructed with record=False: add_node() -- its only mutating method -- appends "
+                                   "only `if self._record`",
+    "rewriter/_pattern_ir:torch_module_op": "OpsetPatternBuilder(PrefixPattern('pkg.torch')) is constructed with record=False: add_node() appends only "
+                                            "`if self._record`",
+    "rewriter/_pattern_ir:_pattern_builder@pattern_builder":
+        "swapped by the context manager pattern_builder() without try/finally: after a pattern function raised it keeps pointing to the recording "
+        "builder of the failed pattern; every pattern construction (GraphPattern/_to_graph_pattern) enters `with pattern_builder(..)` before it "
+        "evaluates the pattern function, so the stale value is never read by a later operation (histories with x_bad_pattern show no change); "
+        "proposed_fixes/C14_pattern_builder_finally.diff",
+}
+
+
+def part_process_state(ctx):
+    for p in _GEN.get("state_problems", []):
+        ctx.tie_broken("translator", "process_state", p)
+    sites = _GEN.get("state_sites", [])
+    ctx.obligation("translator process_state: every module-level / class-level assignment, cache decorator and `global` statement of the "
+                   f"{len(tr.STATE_FILES)} modules on the way to the serialized results has a recognised shape (fail-closed)",
+                   not _GEN.get("state_problems"), "; ".join(_GEN.get("state_problems", [])[:3]))
+    ok, vals, raw = ctx.coq_eval(["OV.Determinism.ProcessState", "OV.Gen.ProcessStateSites"],
+                                 "Eval vm_compute in (bad_state_sites ProcessStateSites.state_sites).\n"
+                                 "Eval vm_compute in (List.length (keyed_sites ProcessStateSites.state_sites)).", name="process_state")
+    if not ok:
+        ctx.tie_broken("proof", "bad_state_sites evaluation", raw[-600:])
+        return
+    bad = re.findall(r'"([^"]+)"', vals[0])
+    by = {f"{s['module']}:{s['name']}": s for s in sites}
+    ruleset_sites = {k for k, s in by.items() if s["disc"] == "RuleSet"}
+    explained, unexplained = {}, []
+    for b in bad:
+        if b in NAMED_RESIDUAL and by.get(b, {}).get("disc") == "Uncontrolled":
+            explained[b] = NAMED_RESIDUAL[b]
+        elif b in ruleset_sites and _GEN.get("ruleset_variant") == "as-read":
+            explained[b] = "rule-set object whose apply_to_model does not re-initialise _value_name_counter: reported under " + KEY_COUNTER
+        else:
+            unexplained.append(b)
+    kinds = {}
+    for s in sites:
+        kinds[s["disc"].split(":")[0]] = kinds.get(s["disc"].split(":")[0], 0) + 1
+        ctx.case(("state-site", s["disc"].split(":")[0], s["module"].split("/")[0]))
+    ctx.cover(process_state_sites=len(sites), process_state_by_discipline=kinds,
+              process_state_keyed=[f"{s['module']}:{s['name']} {s['disc']}" for s in sites if s["disc"].startswith("KeyedBy")],
+              process_state_named_residual=explained)
+    ctx.obligation(f"process-wide state: each of the {len(sites)} module-level mutable objects of the anchored modules is keyed completely, "
+                   "re-initialised per operation (must-definition check), written only while its module is imported, or restored by a scope "
+                   "(bad_state_sites over Gen/ProcessStateSites.v by vm_compute); the others are named with the reason",
+                   not unexplained, f"uncontrolled: {unexplained}; named: {sorted(explained)}")
+    for b in unexplained:
+        ctx.tie_broken("translator", "process_state", f"module-level mutable object {b} ({by.get(b, {}).get('why', '?')}) is neither keyed completely nor "
+                       "re-initialised per operation nor written only at import: results may depend on what the process did before")
+    stale = [k for k in NAMED_RESIDUAL if k not in by]
+    if stale:
+        ctx.tie_broken("harness", "process_state", f"named residual entries no longer found in the sources: {stale}")
+    if len(sites) < 20 or not any(s["disc"].startswith("KeyedBy") for s in sites):
+        ctx.tie_broken("translator", "process_state", f"degenerate: {len(sites)} sites, keyed: {kinds.get('KeyedBy', 0)} (Opset.cache must be seen)")
 
 
 def part_sites(ctx):
@@ -288,7 +422,13 @@ def part_sites(ctx):
                    "unsorted emitting sites: " + "; ".join(f"{s['file']}:{s['line']} {s['func']} ({s['expr']})" for s in wsites
                                                            if s["line"] in bad_wide and s["emits"] and not s["sorted"]) if bad_wide else raww[-300:])
     ctx.cover(wide_set_sites=[f"{s['file']}:{s['func']}:{s['line']}:{s['kind']}:{'sorted' if s['sorted'] else 'unsorted'}" for s in wsites],
-              wide_set_values_not_followed=len(_GEN.get("wide_unresolved", [])))
+              wide_set_values_not_followed=len(_GEN.get("wide_unresolved", [])),
+              wide_set_values_followed_one_level=list(getattr(tr.wide_sites, "followed", [])))
+    ctx.obligation("rewriter core / optimizer / version converter: every set-typed value that is passed on is followed (callee of the same module "
+                   "scanned with the receiving parameter as a set; default of a mapping lookup) -- the scan is fail-closed",
+                   not _GEN.get("wide_unresolved"), "; ".join(_GEN.get("wide_unresolved", [])[:4]))
+    for u in _GEN.get("wide_unresolved", [])[:6]:
+        ctx.tie_broken("translator", "wide_sites", u)
     _GEN["bad_wide"] = [s for s in wsites if s["line"] in bad_wide and s["emits"] and not s["sorted"]]
     thm = ("Require Import OV.Determinism.Perm OV.Determinism.PermProofs OV.Gen.ConverterSites.\n"
            "From Coq Require Import Permutation.\n"
@@ -388,6 +528,67 @@ def part_field_trace(ctx):
         ctx.tie_broken("harness", "field-trace", f"generator degenerate: only {len(seen_cls)} rule classes exercised")
 
 
+def part_later_calls(ctx, fresh0):
+    """'mutating globals afterwards changes neither the generated protos nor later calls': measured per kind of global; the capture
+    discipline (Determinism/Snapshot.v) the implementation follows for eager calls and for the protos is decided per kind and the
+    model's prediction table (SnapshotProofs.predict_spec) is compared with what was observed."""
+    rows = []
+    for kind, rebind in LATER_KINDS.items():
+        op = "s_later_" + kind
+        e = fresh0.get(op)
+        ctx.case(("later-calls", kind))
+        if e is None or not e.get("ok"):
+            ctx.tie_broken("harness", "later-calls", f"{op} did not run: {(e or {}).get('err')} {(e or {}).get('msg', '')[:120]}")
+            continue
+        sha, obs = e["sha"], e.get("obs", {})
+        if sha["eager_before"] != sha["proto_before"] or obs.get("eager_before", "ERR").startswith("ERR"):
+            ctx.tie_broken("harness", "later-calls", f"{op}: eager call and generated model disagree before any mutation: {obs.get('eager_before')} / {obs.get('proto_before')}")
+            continue
+        proto_fixed = sha["proto_after"] == sha["proto_before"] and sha["function_after"] == sha["function"]
+        eager_fixed = sha["eager_after"] == sha["eager_before"] and sha["eager_again"] == sha["eager_before"]
+        rows.append((kind, rebind, eager_fixed, proto_fixed))
+        replay = {"op": op, "kind": kind, "mutation": "rebinding" if rebind else "in-place", **obs}
+        if not proto_fixed:
+            ctx.violation(KEY_ALIAS + kind, f"{op}: the protos generated by an already decorated script function change when the global it refers to is "
+                          f"mutated in place afterwards (onnxruntime on to_model_proto(): {obs.get('proto_before')} -> {obs.get('proto_after')})", replay)
+        if not eager_fixed:
+            ctx.violation(KEY_EAGER + kind, f"{op}: a later eager call of an already decorated script function changes when the global it refers to is "
+                          f"{'rebound' if rebind else 'mutated in place'} afterwards ({obs.get('eager_before')} -> {obs.get('eager_after')}; "
+                          f"the generated model still gives {obs.get('proto_after')})", replay)
+    if not rows:
+        return
+    # which capture disciplines explain the observations: per kind, and for all kinds together
+    b = lambda x: "true" if x else "false"
+    body = ("Require Import OV.Determinism.Snapshot.\nFrom Coq Require Import List.\nImport ListNotations.\n"
+            + "".join(f"Eval vm_compute in (map capture_code (consistent [({b(r)}, {b(ef)})])).\n"
+                      f"Eval vm_compute in (map capture_code (consistent [({b(r)}, {b(pf)})])).\n" for _k, r, ef, pf in rows)
+            + "Eval vm_compute in (map capture_code (consistent [" + "; ".join(f"({b(r)}, {b(ef)})" for _k, r, ef, _pf in rows) + "])).\n"
+            + "Eval vm_compute in (map capture_code (consistent [" + "; ".join(f"({b(r)}, {b(pf)})" for _k, r, _ef, pf in rows) + "])).\n")
+    ok, vals, raw = ctx.coq_eval([], body, name="later_calls")
+    if not ok or len(vals) != 2 * len(rows) + 2:
+        ctx.tie_broken("correspondence", "later-calls", raw[-500:])
+        return
+    names = {0: "as-read", 1: "shallow", 2: "deep"}
+    table = {}
+    for i, (kind, r, ef, pf) in enumerate(rows):
+        table[kind] = {"mutation": "rebinding" if r else "in-place", "eager_fixed": ef, "proto_fixed": pf,
+                       "eager_capture": [names[c] for c in common.parse_nat_list(vals[2 * i])],
+                       "proto_capture": [names[c] for c in common.parse_nat_list(vals[2 * i + 1])]}
+    eager_all = [names[c] for c in common.parse_nat_list(vals[-2])]
+    proto_all = [names[c] for c in common.parse_nat_list(vals[-1])]
+    ctx.cover(later_calls=table, eager_capture_explaining_all_kinds=eager_all, proto_capture_explaining_all_kinds=proto_all)
+    unexplained = [k for k, t in table.items() if not t["eager_capture"] or not t["proto_capture"]]
+    ctx.obligation(f"later calls: for each of the {len(rows)} kinds of global the observed behaviour of eager calls and of the protos is the one "
+                   "Snapshot.predict gives for some capture discipline (SnapshotProofs.predict_spec)", not unexplained, str(unexplained))
+    for k in unexplained:
+        ctx.tie_broken("correspondence", "later-calls", f"{k}: no capture discipline of the model explains {table[k]}")
+    ctx.obligation("later calls: eager calls of decorated script functions are unchanged by later rebinding / in-place mutation of the globals "
+                   "they refer to (capture discipline 'deep' explains every kind)", "deep" in eager_all, f"explaining disciplines: {eager_all}")
+    ctx.obligation("later calls: generated protos are unchanged by later rebinding / in-place mutation of the globals the script refers to "
+                   "(capture discipline 'deep' explains every kind)", "deep" in proto_all, f"explaining disciplines: {proto_all}")
+    ctx.sample({"later_calls": {k: table[k] for k in list(table)[:3]}})
+
+
 def make_sequences(ctx):
     ids = op_ids()
     seqs = [list(s) for s in FIXED_SEQUENCES]
@@ -453,11 +654,29 @@ def part_oracle(ctx, unsorted_sites, bad_rules):
         ctx.case(("same-as", a))
         if ea["ok"] and eb["ok"] and any(ea["sha"].get(k) != eb["sha"].get(k) for k in ("function", "model") if k in eb["sha"]):
             ctx.violation(key, f"{a}: protos differ from {b} although only globals were mutated after decoration", {"op": a, "reference": b, "got": ea["sha"], "want": eb["sha"]})
-    rep = fresh0.get("s_repeat", {})
-    ctx.case(("repeat",))
-    if rep.get("flag") != "repeat-identical":
-        ctx.violation("C14:repeat:to_proto-not-idempotent", "repeated to_model_proto()/to_function_proto() gave different bytes or modified the function",
-                      {"op": "s_repeat", "result": rep})
+    for rop in ("s_repeat", "s_repeat_lib"):
+        rep = fresh0.get(rop, {})
+        ctx.case(("repeat", rop))
+        if rep.get("flag") != "repeat-identical":
+            ctx.violation("C14:repeat:to_proto-not-idempotent", f"{rop}: repeated to_model_proto()/to_function_proto() gave different bytes or modified a function",
+                          {"op": rop, "result": rep})
+            break
+    po = fresh0.get("s_proto_options", {})
+    ctx.case(("proto-options",))
+    if po.get("flag") != "options-identical":
+        ctx.violation("C14:repeat:to_model_proto-options-interfere", "to_model_proto() with different options in sequence: the same option set gave different bytes "
+                      "at different points of the sequence, or the function proto changed", {"op": "s_proto_options", "result": po})
+    # --- self-test of the comparison: a user rule with a counter on the rule object must be seen as history dependent
+    try:
+        st = _run(["t_rw_user_counter", "m_rw_flatten", "t_rw_user_counter"], "0")["results"]
+        blind = _sig(st[0]) == _sig(st[2]) or not st[0]["ok"]
+    except Exception as e:  # noqa: BLE001
+        st, blind = [{"err": str(e)}], True
+    ctx.case(("selftest", "user-rule-counter"))
+    ctx.obligation("oracle self-test: rewriting with a user rule set whose rule keeps a counter on the rule object gives a different result the second "
+                   "time in the same process (the comparison does notice history dependence)", not blind, json_short(st))
+    if blind:
+        ctx.tie_broken("harness", "oracle-selftest", "a rule that counts its matches on the rule object was not seen as history dependent: " + json_short(st))
     # --- histories and seeds
     extra_cache = {}
 
@@ -513,7 +732,23 @@ def part_oracle(ctx, unsorted_sites, bad_rules):
         key = {"If-output-order": KEY_IF, "Loop-state-order": KEY_LOOP}.get(cls, f"C14:hashseed:{op}:{cls}")
         ctx.violation(key, f"{op}: serialized result under PYTHONHASHSEED={seed} differs from PYTHONHASHSEED=0 ({cls})",
                       {"op": op, "seed": seed, "class": cls, "seed0": fresh0[op].get("sha"), "seedN": fresh_at(op, seed).get("sha")})
-    for op, hist, seed, e, f_s in hist_dep[:6]:
+    counter_dep = [t for t in hist_dep if t[3].get("ok") and t[4].get("ok") and "model_hex" in t[3] and "model_hex" in t[4]
+                   and only_fresh_value_names_differ(t[3]["model_hex"], t[4]["model_hex"])]
+    other_dep = [t for t in hist_dep if not any(t is c for c in counter_dep)]
+    if counter_dep:
+        op, hist, seed, e, f_s = min(counter_dep, key=lambda t: len(t[1]))
+        last = [h for h in hist if h.startswith("m_rw_")][-1:] or hist[-1:]
+        ctx.violation(KEY_COUNTER,
+                      f"{op} after history {list(hist)} differs from the same operation in a fresh process only in the names the rewriter generates "
+                      f"for new values (rewritten_val_<n>): RewriteRuleSet._value_name_counter is not re-initialised by apply_to_model "
+                      f"({len(counter_dep)} target/history pairs)",
+                      {"op": op, "history": list(hist), "seed": seed, "minimal_history": last, "got": e.get("sha"), "fresh": f_s.get("sha"),
+                       "pairs": len(counter_dep)})
+    if _GEN.get("ruleset_variant") == "as-read" and not counter_dep:
+        ctx.tie_broken("proof", "rule_ok pass_rule_set", "RewriteRuleSet.apply_to_model reads a field of the rule-set object that it does not re-initialise, "
+                       "but no sampled history shows a different result")
+    ctx.cover(history_dependent_only_in_generated_names=len(counter_dep))
+    for op, hist, seed, e, f_s in other_dep[:6]:
         culprit = "sequence"
         for p in reversed(hist):
             try:
@@ -532,6 +767,7 @@ def part_oracle(ctx, unsorted_sites, bad_rules):
               history_dependent=len(hist_dep), rewrite_results_observed=fired)
     ctx.sample({"sequence": seqs[0], "seed": seeds[0]})
     ctx.sample({"sequence": seqs[-1], "seed": seeds[(len(seqs) - 1) % len(seeds)]})
+    part_later_calls(ctx, fresh0)
     ctx.obligation("direct oracle: every operation gives the same bytes after every sampled history as in a fresh process", not hist_dep,
                    "; ".join(f"{o} after {list(h)}" for o, h, *_ in hist_dep[:3]))
     ctx.obligation("direct oracle: every operation gives the same bytes under every sampled PYTHONHASHSEED", not seed_dep,
@@ -560,8 +796,8 @@ def run(ctx):
     ctx.assume("protobuf map ordering is neutralised by SerializeToString(deterministic=True); OS-level nondeterminism is not modelled")
     ctx.assume("a configuration field (assigned only while the object is constructed) holds the same value in every process; mutation of the "
                "object a configuration field refers to by code outside the class is not modelled")
-    ctx.assume("eager execution of a script function re-reads module globals at call time (documented in Converter._eval_constant_expr); "
-               "only the generated protos and the protos embedded for callees are compared after a post-decoration mutation")
+    ctx.assume("a script function body only looks outer names up (Snapshot.respects): python code that inspects the namespace object itself "
+               "(globals(), vars()) is outside the model; kinds of globals measured: " + ", ".join(LATER_KINDS))
     ctx.assume("what a memoizing method computes on a miss depends only on the parameters the method mentions (depends_only_on) and on "
                "process-constant state (the onnx reference-op registry)")
     ctx.trust("translators harness/c14_translate.py (python ast, fail-closed) -- trusted to emit a faithful image of the recognised shapes; "
@@ -569,6 +805,7 @@ def run(ctx):
     part_translators(ctx)
     bad_rules = part_rule_proofs(ctx)
     ctx.check_props()
+    part_process_state(ctx)
     unsorted_sites = part_sites(ctx)
     part_sort_correspondence(ctx)
     part_field_trace(ctx)
